@@ -33,7 +33,7 @@ flock 9
 if [ "${1:-}" != "--force" ] && [ -f "$STAMP" ] && [ "$(cat "$STAMP")" = "$HASH" ]; then exit 0; fi
 if [ "${CIDER_VERIF_COVERAGE:-}" = "1" ]; then
   # diagnostic build (tools/coverage_run.sh): gcov-instrumented objects kept beside the libraries
-  T="$OUT/../gen"; COV="--coverage -O0"
+  T="$OUT/../gen"; COV="--coverage"
 else
   T="$(mktemp -d "$OUT/../tmp.XXXXXX")"; COV=""
   trap 'rm -rf "$T"' EXIT
